@@ -234,6 +234,9 @@ pub mod watchdog {
 	const MAX: usize = 64;
 	pub struct Slot {
 		since: AtomicU64,
+		/// start of the processing of the current record as a whole (harness code included): a far more generous budget,
+		/// for calls into the code under test that are not individually guarded
+		outer: AtomicU64,
 		ctx: Mutex<String>,
 	}
 	static SLOTS: OnceLock<Vec<Slot>> = OnceLock::new();
@@ -244,7 +247,7 @@ pub mod watchdog {
 		static DEPTH: Cell<u32> = Cell::new(0);
 	}
 	fn slots() -> &'static Vec<Slot> {
-		SLOTS.get_or_init(|| (0..MAX).map(|_| Slot { since: AtomicU64::new(0), ctx: Mutex::new(String::new()) }).collect())
+		SLOTS.get_or_init(|| (0..MAX).map(|_| Slot { since: AtomicU64::new(0), outer: AtomicU64::new(0), ctx: Mutex::new(String::new()) }).collect())
 	}
 	fn now_ms() -> u64 {
 		T0.get_or_init(Instant::now).elapsed().as_millis() as u64 + 1
@@ -265,6 +268,13 @@ pub mod watchdog {
 			}
 		});
 	}
+	/// the current thread starts / finishes processing one record
+	pub fn record_begin() {
+		MY.with(|i| slots()[*i].outer.store(now_ms(), Ordering::Relaxed));
+	}
+	pub fn record_end() {
+		MY.with(|i| slots()[*i].outer.store(0, Ordering::Relaxed));
+	}
 	/// what this thread is working on (a vector line, an event description): printed if a call hangs
 	pub fn set_context(s: &str) {
 		MY.with(|i| {
@@ -284,7 +294,8 @@ pub mod watchdog {
 			let now = now_ms();
 			for s in slots() {
 				let t = s.since.load(Ordering::Relaxed);
-				if t != 0 && now.saturating_sub(t) > limit * 1000 {
+				let o = s.outer.load(Ordering::Relaxed);
+				if (t != 0 && now.saturating_sub(t) > limit * 1000) || (o != 0 && now.saturating_sub(o) > limit * 40 * 1000) {
 					let ctx = s.ctx.lock().map(|c| c.clone()).unwrap_or_default();
 					println!("HANG {}", serde_json::json!({"seconds": limit, "context": ctx}));
 					use std::io::Write;
